@@ -106,6 +106,11 @@ Definition fact_consts : bool :=
   && (gen_md_cdata_close_adv + gen_md_cdata_last_off <=? nlen gen_md_cdata_close)
   && (gen_md_cdata_last_off <=? 1)
   && (0 <? nlen gen_md_cdata_close) && (0 <? nlen gen_md_comment_close)
+  (* the skips cover exactly the opener and the terminator: the loop resumes at the byte after it *)
+  && (gen_md_comment_open_adv =? nlen gen_md_comment_open) && (gen_md_comment_close_adv + 1 =? nlen gen_md_comment_close)
+  && (gen_md_cdata_open_adv =? nlen gen_md_cdata_open) && (gen_md_cdata_close_adv + 1 =? nlen gen_md_cdata_close)
+  && (gen_md_cdata_last_off =? 1)
+  && (gen_md_comment_count =? nlen gen_md_comment_open) && (gen_md_cdata_count =? nlen gen_md_cdata_open)
   && bytes_eqb gen_mdcb_newline [10] && bytes_eqb gen_mdcb_pair_next []
   && bytes_eqb gen_mdcb_indent_tab (cb_indent false) && bytes_eqb gen_mdcb_indent_spaces (cb_indent true).
 Lemma fact_consts_ok : fact_consts = true. Proof. vm_compute. reflexivity. Qed.
